@@ -671,9 +671,20 @@ pub fn c09(ctx: &Ctx) -> Collector {
 
 pub fn c10(ctx: &Ctx) -> Collector {
     let col = Collector::new("C10", "exploration");
-    col.set_rule("cases = union of S_len to length 8000 (ctr; thorough adds all-minimum, all-maximum and pad-look-alike content), S_cell, S_opt, S_group, S_small, S_forced_version, S_beyond, S_cross, all class patterns to length 8, S_pair_ctx, long automatic-mode strings with one foreign character; forced modes only with inputs inside the mode's alphabet, automatic mode with arbitrary bytes; oracle: the call returns Ok or one of the two documented errors: no unwind (catch_unwind), no abort (supervising parent process), no case over the watchdog limit; the subject is built with overflow checks and debug assertions; non-trivial = a symbol was returned; distinct = distinct symbol matrices");
+    col.set_rule("cases = union of S_len to length 8000 (ctr; thorough adds all-minimum, all-maximum and pad-look-alike content), S_cell, S_opt, S_group, S_small, S_forced_version, S_beyond, S_cross, all class patterns to length 8, S_pair_ctx, long automatic-mode strings with one foreign character; forced modes only with inputs inside the mode's alphabet, automatic mode with arbitrary bytes; the whole run comes after three builds outside the domain (forced mode lacking a character of the input; caught) on the main thread and on a thread that has ended; oracle: the call returns Ok or one of the two documented errors: no unwind (catch_unwind), no abort (supervising parent process), no case over the watchdog limit; the subject is built with overflow checks and debug assertions; non-trivial = a symbol was returned; distinct = distinct symbol matrices");
     col.assume("fast_qr is compiled with overflow-checks = true and debug-assertions = true (harness/Cargo.toml profile), so integer overflow and the placed-bit-count assertion unwind and are caught");
     let p = ["C10"];
+    // Builds outside the property's domain come first (a forced mode whose alphabet lacks a character of the input; they
+    // panic at the pinned commit and are caught), on this thread and on a thread that ends: every build of the domain
+    // that follows in this process must be unaffected by them.
+    for (inp, m) in [(&b"12a"[..], 0u8), (&b"hello"[..], 1), (&b"12,5"[..], 0)] {
+        let o = Opts { mode: Some(m), ..Opts::default() };
+        let _ = crate::subject::build(inp, &o);
+        let _ = std::thread::spawn(move || {
+            let _ = crate::subject::build(inp, &o);
+        })
+        .join();
+    }
     let mut i = 0;
     for f in families(ctx) {
         run_space(&col, i, &spaces::s_len_tier(f, 8000, ctx.tier.thorough()), &p, false, &no_extra);
